@@ -9,7 +9,7 @@ use serde_json::{Value as J, json};
 const RULE: &str = "generated programs (+lists, RANDOM, shuffles, tunnels, threads, functions, externals) and \
 reference corpus stories, each driven through a generated history (continues line by line, choices, \
 save/load, flow switches and removal, path jumps with/without call-stack reset, set_variable, observers, \
-evaluate_function, failing calls) and then reset_state(); the reset story and a freshly constructed one \
+evaluate_function, failing calls; in a third of the cases refused calls right before the reset, among them a reset asked for while a time-limited slice is paused mid-line, which must be refused) and then reset_state(); the reset story and a freshly constructed one \
 (same seed, same registrations) are driven in lockstep through several continuation variants: every \
 line, tag, choice list, error, external call and observer notification, the final view (globals, visit \
 counts) and the canonical save (one default flow, zero turn index) must be equal; external bindings, \
@@ -48,6 +48,7 @@ pub fn exec(case: &J, acc: &mut Acc) -> Result<(), Fail> {
         acc.eval();
         let t = tail(variant, 3);
         // reset story
+        let midslice_reset_accepted = std::cell::Cell::new(false);
         let r = guard(|| {
             let mut h = Host::new(&json_text, meta.clone(), &cfg).map_err(|e| e.to_string())?;
             h.run(&ops);
@@ -62,6 +63,21 @@ pub fn exec(case: &J, acc: &mut Acc) -> Result<(), Fail> {
                 }
                 let _ = h.story.choose_choice_index(999);
                 let _ = h.story.choose_path_string("zz_nowhere", false, None);
+                // ... and a reset asked for while a time-limited continue is paused mid-line: it
+                // must be refused (the line is then finished before the reset proper)
+                if h.story.can_continue() {
+                    h.story.verif_set_async_step_budget(Some(1));
+                    let _ = h.story.continue_async(1.0e9);
+                    if h.story.verif_async_active() {
+                        if h.story.reset_state().is_ok() {
+                            midslice_reset_accepted.set(true);
+                        }
+                        h.story.verif_set_async_step_budget(None);
+                        let _ = h.story.cont();
+                    }
+                    h.story.verif_set_async_step_budget(None);
+                    h.trace.clear();
+                }
                 h.log.borrow_mut().clear();
             }
             let before_save = h.story.save_state().ok();
@@ -89,6 +105,13 @@ pub fn exec(case: &J, acc: &mut Acc) -> Result<(), Fail> {
             }
             Ok(Ok(Some(x))) => x,
         };
+        if midslice_reset_accepted.get() {
+            return Err(Fail::violation(
+                "reset-accepted-mid-slice",
+                "reset_state was accepted while a time-limited continue was paused in the middle of a line".to_string(),
+                case.clone(),
+            ));
+        }
         if !matches!(reset_obs.last(), Some(Obs::Ret(_))) {
             return Err(Fail::violation(
                 "reset-refused",
